@@ -488,4 +488,14 @@ def growth(tier: str) -> int:
         print(f"OBSERVATION (no listed property): {clause}: {len(vs)} rows disagree with the definition, e.g. {vs[0]['signature']} -> {vs[0]['detail']}")
     if not by:
         print("Shipped stop conditions conform to StopConds.tla on every row")
+    from .mod_table import shade_stage
+    st = shade_stage(tier)
+    rec = st["recorded"]
+    print(f"Shade.tla: {st['tlc']['distinct']} states, invariants violated: {st['tlc']['violated']}, witnesses reached: {st['witnesses_reached']}; "
+          f"ShadeTrace.tla: {rec['traces']} recorded SHADE objects, {rec['events']} generations ({rec['without_success']} without a success, "
+          f"{rec['archive_cut']} with the archive cut back), {st['trace_states']} states")
+    for clause, v in st["clauses_violated"].items():
+        print(f"OBSERVATION (no listed property): {clause}: {v['n']} recorded generations disagree with Shade.tla, first: {v['first']}")
+    if not st["clauses_violated"]:
+        print("Recorded SHADE generations conform to Shade.tla")
     return 0
